@@ -144,6 +144,11 @@ func ecPool(c elliptic.Curve, rnd *mrand.Rand, extra int) []poolKey {
 	add("d=1", big.NewInt(1))
 	add("d=n-1", new(big.Int).Sub(n, big.NewInt(1)))
 	add("d=2^k", new(big.Int).Lsh(big.NewInt(1), uint(8*(size-1)-1))) // minimal encoding starts with 0x80 after sign handling
+	// scalars that are exactly 64 / 56 bits long with the top bit set: as big integers they need a sign byte in every encoding, and they
+	// sit right at the width of a machine word
+	add("d=2^64-1", new(big.Int).SetUint64(0xFFFFFFFFFFFFFFFF))
+	add("d=2^63+5", new(big.Int).SetUint64(0x8000000000000005))
+	add("d=2^56-3", new(big.Int).SetUint64(0x00FFFFFFFFFFFFFD))
 	randScalar := func() *big.Int {
 		for {
 			d := new(big.Int).Rand(rnd, n)
@@ -152,7 +157,7 @@ func ecPool(c elliptic.Curve, rnd *mrand.Rand, extra int) []poolKey {
 			}
 		}
 	}
-	for tries := 0; tries < 6000 && len(want) < 3+8; tries++ {
+	for tries := 0; tries < 6000 && len(want) < 6+8; tries++ {
 		d := randScalar()
 		if tries%3 == 0 { // force scalars with leading zero bytes
 			d.Rsh(d, uint(8*(1+tries%2)))
